@@ -334,6 +334,7 @@ class Interp(object):
         self.trace_reads = None
         self.sumfacts = {}
         self.opaque_arith = False     # see arith_terms
+        self.strict_asserts = False   # data-dependent asserts are decisions to explore (default: assumed to hold)
         self.python_scalars = False   # the symbolic scalars of this world are Python floats (division by exact zero raises)
         self.inf_syms = frozenset()   # symbols that stand for +infinity (IEEE rules apply to them, see ieee())
         self.nonneg = set()
@@ -812,6 +813,9 @@ class Interp(object):
     def st_Assert(self, st, env):
         v = self.eval(st.test, env)
         b = self.truth(v, st, ask=False)
+        if b is None and self.strict_asserts:
+            # the rule wants to see both outcomes of a data-dependent assertion (explored by the driver)
+            b = self.truth(v, st, ask=True)
         self.guards.append({'kind': 'assert', 'node': st, 'loc': self.loc(st), 'value': b,
                             'func': self.frames[-1].func.name, 'cond': v})
         if b is False:
@@ -1356,6 +1360,21 @@ class Interp(object):
             raise Unsupported('builtin %s is not modelled' % node.id, node)
         raise Raised('NameError', node.id, self.loc(node))
 
+    def enum_class(self, c):
+        """ClassInfo of the enumeration a constant member belongs to (members are Const(('<Class>', '<member>')))"""
+        if isinstance(c, Const) and isinstance(c.v, tuple) and len(c.v) == 2 and isinstance(c.v[0], str):
+            for ci in self.prog.classes_named(c.v[0]) if hasattr(self.prog, 'classes_named') else []:
+                return ci
+        return None
+
+    def enum_method(self, c, name):
+        if name is None:
+            return None
+        ci = self.enum_class(c)
+        if ci is None:
+            return None
+        return ci.methods.get(name)
+
     def module_global(self, module, name):
         """value of a module-level assignment: evaluated once per interpreter (the module is imported once per process), so
         a module-level dict / list / array is one shared object for every function that uses it"""
@@ -1458,6 +1477,19 @@ class Interp(object):
             return Obj('shape', {'arr': o})
         if isinstance(o, Mask) and name == 'astype' and getattr(o, 'indexcmp', None) is None:
             return Native('ndarray.astype', self.lib.nd_astype, o)
+        if isinstance(o, Const) and isinstance(o.v, tuple):
+            ci = self.enum_class(o)
+            if ci is not None:
+                if name == 'name':
+                    return Const(o.v[1])
+                if name == 'value':
+                    c_, v_ = ci.find_class_attr(o.v[1])
+                    if v_ is not None:
+                        return self.eval_class_attr(c_, v_)
+                mi = ci.find_method(name)
+                if mi is not None:
+                    return Func(mi.node, None, mi.module, o, mi.cls, mi)
+                raise Unsupported('attribute %s of an enumeration member' % name, node)
         if isinstance(o, Const) and isinstance(o.v, str):
             hook = self.str_methods.get(name)
             if hook is not None:
@@ -1717,7 +1749,32 @@ class Interp(object):
             return N.drop_inf(f(x, y), infs)
         return g
 
+    def note_cancellation(self, op, ta, tb, node):
+        """floating-point lint: `c + (exp(..) - c)` (or the same with minus signs).  Algebraically the constants cancel and
+        the normal form shows exp(..) alone, but the intermediate `exp(..) - c` was rounded at the scale of c: once exp(..)
+        is below c * 1e-16 it is lost for good (1 + (exp(-u) - 1) is exactly 0 for u > 37 although exp(-u) is 1e-17)."""
+        if op not in ('Add', 'Sub'):
+            return
+
+        def const_and_exp(t):
+            if P.is_pw(t) or not t.is_poly():
+                return None
+            c = t.num.get(N.UNIT, N.ZERO)
+            has_exp = any(any(a[0] in ('exp', 'expq') for a, e in m) for m in t.num if m != N.UNIT)
+            return c, has_exp
+        xa, xb = const_and_exp(ta), const_and_exp(tb)
+        if xa is None or xb is None:
+            return
+        (ca, ea), (cb, eb) = xa, xb
+        cb2 = cb if op == 'Add' else -cb
+        if ca != 0 and cb2 != 0 and ca + cb2 == 0 and (ea != eb) and ((ea and len(ta.num) > 1 and len(tb.num) == 1) or
+                                                                      (eb and len(tb.num) > 1 and len(ta.num) == 1)):
+            self.notes.append(('cancellation', {'loc': self.loc(node), 'const': N.show(N.NF.const(abs(ca))),
+                                                'term': N.show(ta if ea else tb)[:80]}))
+
     def arith_terms(self, op, ta, tb, node):
+        if not self.opaque_arith:
+            self.note_cancellation(op, ta, tb, node)
         if self.opaque_arith and op in ('Add', 'Sub', 'Mult', 'Div', 'Pow'):
             # no algebra: the result is the operator applied to its operands (constants are still folded).  Two terms are
             # then equal iff they were computed by the same operations from the same inputs -- all a history rule needs
@@ -1856,7 +1913,24 @@ class Interp(object):
                 m.labelcmp = (sym, a.name, b.name)
                 return m
             return Const(e if sym == '==' else not e)
+        if isinstance(a, Seq) and isinstance(b, Seq) and sym in ('==', '!='):
+            # tuples / lists compare elementwise (a list never equals a tuple)
+            eq = len(a.items) == len(b.items) and (a.kind == b.kind or {a.kind, b.kind} <= {'tuple'} or a.kind == b.kind)
+            if eq:
+                for x, y in zip(a.items, b.items):
+                    e = self.compare('Eq', x, y, node)
+                    if not isinstance(e, Const):
+                        raise Unsupported('sequence comparison with symbolic elements', node)
+                    if not e.v:
+                        eq = False
+                        break
+            return Const(eq if sym == '==' else not eq)
         if isinstance(a, Const) and isinstance(b, Const):
+            enum_m = self.enum_method(a, '__eq__' if sym == '==' else ('__ne__' if sym == '!=' else None))
+            if enum_m is not None:
+                # an enumeration that defines its own comparison: its method decides (receiver = left operand)
+                r = self.call_function(Func(enum_m.node, None, enum_m.module, a, enum_m.cls, enum_m), [b], {}, node)
+                return Const(bool(self.truth(r, node, ask=True)))
             if sym == '==':
                 return Const(a.v == b.v)
             if sym == '!=':
